@@ -334,10 +334,11 @@ def run(chk: Check) -> None:
                 continue
             viol_seen.add(ks)
             replay = {"pass": m["pass"], "desc": m["desc"], "ort": cmp, "validator": verdict,
-                      "how": "run the pass pipeline of jax2onnx.converter.ir_optimizations on before.onnx up "
+                      "how": "vcheck.py C02 --replay <this file>: run the pass pipeline of jax2onnx.converter.ir_optimizations on the embedded input graph up "
                              "to and including this pass; execute before/after in onnxruntime"}
             listed = chk.finding(key, f"pass {m['pass']} changes results on pattern {key['family']} "
-                                      f"[{key['guards']}]: {cmp.get('why', cmp.get('error', ''))[:120]}", replay)
+                                      f"[{key['guards']}]: {cmp.get('why', cmp.get('error', ''))[:120]}",
+                                 _with_models(replay, m))
             if not listed:
                 _save_models(chk, m, key)
         else:
@@ -373,15 +374,53 @@ def run(chk: Check) -> None:
 
 
 def _save_models(chk: Check, m: dict, key: dict) -> None:
-    d = common.REPLAYS
-    d.mkdir(exist_ok=True)
-    tag = f"C02-{abs(hash(json.dumps(key, sort_keys=True))) % 10**8}"
-    onnx.save(m["before"], str(d / f"{tag}-before.onnx"))
-    if m["after"] is not None:
-        onnx.save(m["after"], str(d / f"{tag}-after.onnx"))
+    pass   # the models travel inside the replay file (see `_with_models`)
+
+
+def _with_models(replay: dict, m: dict) -> dict:
+    """make a replay self-contained: the input graph (serialized, base64) and the feeds' shapes/seeds."""
+    import base64
+    r = dict(replay)
+    r["before_onnx_b64"] = base64.b64encode(m["before"].SerializeToString()).decode()
+    r["feeds"] = [{k: {"shape": list(v.shape), "dtype": str(v.dtype),
+                       "data_b64": base64.b64encode(np.ascontiguousarray(v).tobytes()).decode()}
+                   for k, v in f.items()} for f in m["feeds"][:3]]
+    return r
 
 
 def replay(path: str) -> int:
+    """Re-run a recorded violation against the real code of the current tree: exit 1 if it still fails."""
+    import base64
     rep = json.loads(open(path).read())
-    print(json.dumps(rep, indent=1)[:3000])
-    return 0
+    print(json.dumps({k: v for k, v in rep.items() if k not in ("before_onnx_b64", "feeds")}, indent=1)[:3000])
+    if rep.get("guard"):
+        import c02_guards
+        failing = c02_guards._search(rep["guard"], rep["input"], None)
+        print("replay:", "still fails: " + json.dumps(failing) if failing else "no longer fails")
+        return 1 if failing else 0
+    if "before_onnx_b64" not in rep:
+        print("replay: this file names a broken obligation without a concrete input; re-run the check itself")
+        return 0
+    before = onnx.ModelProto()
+    before.ParseFromString(base64.b64decode(rep["before_onnx_b64"]))
+    feeds_list = [{k: np.frombuffer(base64.b64decode(v["data_b64"]), dtype=np.dtype(v["dtype"])).reshape(v["shape"])
+                   for k, v in f.items()} for f in rep.get("feeds", [])]
+    upto = rep.get("pass")
+    import onnx_ir as ir
+    opt = _opt()
+    irm = ir.from_proto(before)
+    if upto in (None, "<pipeline>"):
+        for p in opt._OPTIMIZER_PASSES:
+            opt._run_top_level_optimizer_pass(p, irm)
+    else:
+        for p in opt._OPTIMIZER_PASSES:
+            if p.name == upto:
+                opt._run_top_level_optimizer_pass(p, irm)
+    after = ir.to_proto(irm)
+    cmp = compare_ort(before, after, feeds_list, rep.get("desc", {}).get("family") == "misc_cse_random")
+    if cmp["status"] == "equal":
+        stale = declared_output_mismatch(before, after, feeds_list[0]) if feeds_list else None
+        if stale:
+            cmp = {"status": "after_invalid", "why": stale}
+    print("replay:", json.dumps(cmp))
+    return 1 if cmp["status"] in ("differ", "after_invalid") else 0
